@@ -319,10 +319,12 @@ BAddAll(b0, adds) ==
            [b |-> b0, outs |-> <<>>], adds)
 
 \* Snap::recycle (of a snapshot whose registry is well-formed): the builder keeps exactly the
-\* registry, numbering continues after the used numbers (a number more than 255 above the
-\* running maximum is not counted: "space for at least 256 additional extended types")
+\* registry; numbering continues after the used numbers. Only numbers a builder can assign
+\* (0x4000..0x7fff) count, in ascending order; a number more than 255 above the running maximum
+\* or in the topmost 256 is not counted ("space for at least 256 additional extended types").
 RecycleNext(S) ==
-  FoldLeft(LAMBDA nx, k : IF k[2] < nx + 256 THEN k[2] + 1 ELSE nx, OffsetExt, SortedKeySeq(RegKeys(S)))
+  FoldLeft(LAMBDA nx, k : IF k[2] < nx + 256 /\ k[2] + 256 < 32768 THEN k[2] + 1 ELSE nx, OffsetExt,
+           SortedKeySeq({k \in RegKeys(S) : k[2] >= OffsetExt /\ k[2] < 32768}))
 Recycle(S) ==
   LET reg == Reg(S) IN
   BuilderOf([k \in {<<TypeEx, reg[u]>> : u \in DOMAIN reg} |-> UuidOf(S[k])], reg, RecycleNext(S))
